@@ -696,10 +696,10 @@ func runMutant(m mutant, baseFP string) error {
 		}
 	}
 	if props != nil {
-		_ = os.WriteFile(propFile, []byte("other=1\n"+strings.Join(props, "\n")+"\n"), 0o644)
+		_ = os.WriteFile(propFile, []byte("other=1\n\nnosuch_ZV\n"+strings.Join(props, "\n")+"\n"), 0o644)
 	} else {
 		// keys that merely start like the ones asked for below must not satisfy a lookup
-		_ = os.WriteFile(propFile, []byte("other=1\nnosuch_ZV_more=1\n"), 0o644)
+		_ = os.WriteFile(propFile, []byte("other=1\n\nnosuch_ZV\nnosuch_ZV_more=1\n"), 0o644)
 	}
 	conf, err := decode(m.conf)
 	if err != nil && strings.HasPrefix(err.Error(), "PANIC") {
